@@ -634,6 +634,11 @@ func searchTie(drv *Driver, hp *hpTable, c *syzgydb.Collection, sc *lshScenario,
 			query[i] = rng.Float64()*2 - 1
 		}
 	}
+	if rng.Intn(8) == 0 { // a query so large that hyperplane distances overflow to +Inf (no pruning may happen before a first result)
+		for i := range query {
+			query[i] = []float64{1.79e308, -1.79e308, 1e308}[rng.Intn(3)]
+		}
+	}
 	var hpt []string
 	seenHP := map[int]bool{}
 	for _, n := range nodes {
@@ -690,7 +695,7 @@ func searchTie(drv *Driver, hp *hpTable, c *syzgydb.Collection, sc *lshScenario,
 	}
 	statSearches++
 	real := c.Search(syzgydb.SearchArgs{Vector: query, K: K, Radius: R, Filter: f.fn})
-	model := drv.Send(fmt.Sprintf("lsh 200 %d %d %d %s %s %s", K, math.Float64bits(R), math.Float64bits(math.MaxFloat64), strings.Join(trees, "|"), j(cs), j(hpt)))
+	model := drv.Send(fmt.Sprintf("lsh 200 %d %d %d %s %s %s", K, math.Float64bits(R), math.Float64bits(math.Inf(1)), strings.Join(trees, "|"), j(cs), j(hpt)))
 	var rb []string
 	for _, r := range real.Results {
 		rb = append(rb, fmt.Sprint(math.Float64bits(r.Distance)))
